@@ -38,6 +38,7 @@ struct Act {
 };
 struct Scenario {
     bool strict = false, ignoreOtherCalls = false, readReturn = false, outParam = false;
+    bool scoped = false;   // function index 1 is "f" in the mock scope "s" (instead of the global function "g")
     std::vector<Exp> exps;
     std::vector<Act> acts;
 };
@@ -45,11 +46,12 @@ struct Scenario {
 inline const char* FN[] = {"f", "g"};
 inline const char* PN[] = {"p", "q"};
 
+inline const char* fn_name(const Scenario& s, int fn) { return s.scoped ? (fn ? "s::f" : "f") : FN[fn]; }
 inline std::string render(const Scenario& s) {
     std::string o;
     if (s.strict) o += "strictOrder; ";
     for (auto& e : s.exps) {
-        o += vf::fmt("expect%d %s(", e.count, FN[e.fn]);
+        o += vf::fmt("expect%d %s(", e.count, fn_name(s, e.fn));
         for (int i = 0; i < e.np; i++) o += vf::fmt("%s%s=%d", i ? "," : "", PN[e.pname[i]], e.pval[i]);
         o += ")";
         if (e.obj) o += vf::fmt(".onObject(o%d)", e.obj);
@@ -58,7 +60,7 @@ inline std::string render(const Scenario& s) {
     }
     if (s.ignoreOtherCalls) o += "ignoreOtherCalls; ";
     for (auto& a : s.acts) {
-        o += vf::fmt("call %s", FN[a.fn]);
+        o += vf::fmt("call %s", fn_name(s, a.fn));
         if (a.obj) o += vf::fmt(".onObject(o%d)", a.obj);
         o += "(";
         for (int i = 0; i < a.np; i++) o += vf::fmt("%s%s=%d", i ? "," : "", PN[a.pname[i]], a.pval[i]);
@@ -116,8 +118,9 @@ inline bool canonical(const Scenario& s) {
         if (v == val_seen[n] + 1) val_seen[n]++; else if (v > val_seen[n] + 1) return false;
         return true;
     };
-    for (auto& e : s.exps) { if (!see_fn(e.fn) || !see_obj(e.obj)) return false; for (int i = 0; i < e.np; i++) if (!see_p(e.pname[i], e.pval[i])) return false; }
-    for (auto& a : s.acts) { if (!see_fn(a.fn) || !see_obj(a.obj)) return false; for (int i = 0; i < a.np; i++) if (!see_p(a.pname[i], a.pval[i])) return false; }
+    bool fnsym = !s.scoped;     // a scoped function and a global one are not interchangeable
+    for (auto& e : s.exps) { if ((fnsym && !see_fn(e.fn)) || !see_obj(e.obj)) return false; for (int i = 0; i < e.np; i++) if (!see_p(e.pname[i], e.pval[i])) return false; }
+    for (auto& a : s.acts) { if ((fnsym && !see_fn(a.fn)) || !see_obj(a.obj)) return false; for (int i = 0; i < a.np; i++) if (!see_p(a.pname[i], a.pval[i])) return false; }
     return true;
 }
 
@@ -142,7 +145,8 @@ inline bool unambiguous(const Scenario& s) {
 // ---------------------------------------------------------------- reference model (multiset semantics)
 struct Expected {
     int diag = PASS;
-    int failing_call = -1;                 // index of the actual call at which the failure is raised (or size() for checkExpectations)
+    int failing_call = -1;                 // index of the actual call the failure belongs to (or size() for checkExpectations)
+    int raised_at = -1;                    // index of the call statement during which the failure is raised (size() = teardown)
     int additional_nth = 0;                // for ADDITIONAL: the ordinal named in the message
     std::vector<int> consumed;             // per actual call: expectation index consumed, -1 ignored call, -2 not reached
 };
@@ -153,19 +157,27 @@ inline Expected reference(const Scenario& s) {
     for (size_t i = 0; i < nE; i++) left[i] = s.exps[i].count;
     r.consumed.assign(s.acts.size(), -2);
     std::vector<int> order;               // consumed expectation per non-ignored call
+    // a call that matches no expectation completely (missing parameter / missing object) is only known to have
+    // failed when its mock scope finalises it: at the next actual call in the same scope, when its return value
+    // is read, or at checkExpectations. One pending call per scope (scope == function index when scoped).
+    int pending_diag[2] = {PASS, PASS}, pending_call[2] = {-1, -1};
+    auto fail = [&](int diag, int call, int raised) { r.diag = diag; r.failing_call = call; r.raised_at = raised; return r; };
     for (size_t c = 0; c < s.acts.size(); c++) {
         const Act& a = s.acts[c];
+        int scope = s.scoped ? a.fn : 0;
+        if (pending_diag[scope] != PASS) return fail(pending_diag[scope], pending_call[scope], (int)c);
         std::vector<int> named, R;
         for (size_t i = 0; i < nE; i++) if (s.exps[i].fn == a.fn) { named.push_back((int)i); if (left[i] > 0) R.push_back((int)i); }
         if (R.empty()) {
             if (s.ignoreOtherCalls && named.empty()) { r.consumed[c] = -1; continue; }
             int fulfilled = 0; for (int i : named) fulfilled += done[i];
-            r.diag = fulfilled > 0 ? ADDITIONAL : UNEXPECTED_CALL; r.additional_nth = fulfilled + 1; r.failing_call = (int)c; return r;
+            r.additional_nth = fulfilled + 1;
+            return fail(fulfilled > 0 ? ADDITIONAL : UNEXPECTED_CALL, (int)c, (int)c);
         }
         if (a.obj) {
             std::vector<int> R2; for (int i : R) if (s.exps[i].obj == 0 || s.exps[i].obj == a.obj) R2.push_back(i);
             R = R2;
-            if (R.empty()) { r.diag = OBJ_UNEXPECTED; r.failing_call = (int)c; return r; }
+            if (R.empty()) return fail(OBJ_UNEXPECTED, (int)c, (int)c);
         }
         for (int k = 0; k < a.np; k++) {
             int name = a.pname[k], v = a.pval[k];
@@ -174,7 +186,7 @@ inline Expected reference(const Scenario& s) {
             R = R2;
             if (R.empty()) {
                 bool declared_somewhere = false; for (int i : named) if (s.exps[i].declares(name)) declared_somewhere = true;
-                r.diag = declared_somewhere ? PARAM_VALUE : PARAM_NAME; r.failing_call = (int)c; return r;
+                return fail(declared_somewhere ? PARAM_VALUE : PARAM_NAME, (int)c, (int)c);
             }
         }
         int m = -1; bool missing_param = false;
@@ -185,15 +197,22 @@ inline Expected reference(const Scenario& s) {
             if (e.obj && !a.obj) continue;
             if (m < 0) m = i;
         }
-        if (m < 0) { r.diag = missing_param ? PARAM_MISSING : OBJ_MISSING; r.failing_call = (int)c; return r; }
+        if (m < 0) {
+            int d = missing_param ? PARAM_MISSING : OBJ_MISSING;
+            if (s.readReturn) return fail(d, (int)c, (int)c);          // reading the return value finalises the call at once
+            pending_diag[scope] = d; pending_call[scope] = (int)c; r.consumed[c] = -3;
+            continue;
+        }
         left[m]--; done[m]++; r.consumed[c] = m; order.push_back(m);
     }
-    for (size_t i = 0; i < nE; i++) if (left[i] > 0) { r.diag = NOT_FULFILLED; r.failing_call = (int)s.acts.size(); return r; }
+    int end = (int)s.acts.size();
+    for (int scope = 0; scope < 2; scope++) if (pending_diag[scope] != PASS) return fail(pending_diag[scope], pending_call[scope], end);
+    for (size_t i = 0; i < nE; i++) if (left[i] > 0) return fail(NOT_FULFILLED, end, end);
     if (s.strict) {
         std::vector<int> expanded; for (size_t i = 0; i < nE; i++) for (int k = 0; k < s.exps[i].count; k++) expanded.push_back((int)i);
         bool same = expanded.size() == order.size();
         for (size_t k = 0; same && k < order.size(); k++) if (!same_class(s.exps[expanded[k]], s.exps[order[k]])) same = false;
-        if (!same) { r.diag = OUT_OF_ORDER; r.failing_call = (int)s.acts.size(); return r; }
+        if (!same) return fail(OUT_OF_ORDER, end, end);
     }
     return r;
 }
